@@ -50,7 +50,9 @@ Definition label_of (l : list N) : option xlabel :=
     match k with
     | 0%N => Some (XClone t') | 1%N => Some (XRead t') | 2%N => Some (XWrite t') | 3%N => Some (XUngrant t')
     | 4%N => Some (XMoveOut t') | 5%N => Some (XSend t' a') | 6%N => Some (XStartDrop t') | 7%N => Some (XStartUniq t')
-    | 8%N => Some (XStartUoc t') | 9%N => Some (XStep t' a') | _ => None
+    | 8%N => Some (XStartUoc t') | 9%N => Some (XStep t' a')
+    | 10%N => Some (XStartUoc t')          (* make_mut: the same two programs; see [cow] below *)
+    | _ => None
     end
   | _ => None
   end.
@@ -75,46 +77,57 @@ Definition step_class (s : xstate) (l : xlabel) : N * N * N * N :=
 
 (** the function the thread was running has returned: nothing left to run, and not waiting inside unwrap_or_clone for
     the move-out that follows its grant *)
-Definition finished (s : xstate) (t : nat) : bool :=
+(** [Arc::make_mut] runs the same two programs as [unwrap_or_clone] - the uniqueness test, then either exclusive access
+    or "clone the value and give the handle up" - but when it is granted it RETURNS (a [&mut T]: the caller may write
+    and later lets go), where [unwrap_or_clone] goes on to move the value out.  The machine does not distinguish the
+    two; this stream does, by remembering which threads' running (or last) call is a make_mut ([cow]). *)
+Definition is_cow (cow : list nat) (t : nat) : bool := existsb (Nat.eqb t) cow.
+Definition is_cow_raw (raw : list N) : bool := match raw with 10%N :: _ => true | _ => false end.
+
+(** inside unwrap_or_clone the grant is not visible from outside: the function is still running, with the handle it
+    was given *)
+Definition in_uoc_grant (cow : list nat) (s : xstate) (t : nat) : bool :=
   let x := xget s t in
-  match x_pc x, x_mode x, x_ret x with
-  | [], XGranted, RGone => false
-  | [], _, _ => true
-  | _, _, _ => false
-  end.
+  match x_pc x, x_mode x, x_ret x with [], XGranted, RGone => negb (is_cow cow t) | _, _, _ => false end.
+
+(** the function the thread was running has returned *)
+Definition finished (cow : list nat) (s : xstate) (t : nat) : bool :=
+  match x_pc (xget s t) with [] => negb (in_uoc_grant cow s t) | _ => false end.
 
 Definition label_thread (l : xlabel) : nat :=
   match l with
   | XClone t | XRead t | XWrite t | XUngrant t | XMoveOut t | XSend t _ | XStartDrop t | XStartUniq t | XStartUoc t | XStep t _ => t
   end.
 
-(** inside unwrap_or_clone the grant is not visible from outside: the function is still running, with the handle it
-    was given *)
-Definition in_uoc_grant (x : xthread) : bool :=
-  match x_pc x, x_mode x, x_ret x with [], XGranted, RGone => true | _, _, _ => false end.
-
-Definition mode_code (x : xthread) : N :=
-  if in_uoc_grant x then 2%N else
+Definition mode_code (cow : list nat) (s : xstate) (t : nat) : N :=
+  let x := xget s t in
+  if in_uoc_grant cow s t then 2%N else
   match x_pc x, x_mode x with
   | _ :: _, _ => 2%N
   | [], XGranted => 1%N
   | [], XIdle => 0%N
   end.
 
-Definition owned_code (x : xthread) : N := N.of_nat (if in_uoc_grant x then x_owned x - 1 else x_owned x).
+Definition owned_code (cow : list nat) (s : xstate) (t : nat) : N :=
+  let x := xget s t in N.of_nat (if in_uoc_grant cow s t then x_owned x - 1 else x_owned x).
 
-Fixpoint summary (s : xstate) (n t : nat) : list N :=
+Fixpoint summary (cow : list nat) (s : xstate) (n t : nat) : list N :=
   match n with
   | O => []
-  | S n' => owned_code (xget s t) :: mode_code (xget s t) :: summary s n' (S t)
+  | S n' => owned_code cow s t :: mode_code cow s t :: summary cow s n' (S t)
   end.
 
 (** between the grant inside unwrap_or_clone and the move-out that follows it the thread is inside that function: the
-    only thing it can do is go on (the machine would also let it read through the granted handle) *)
-Definition allowed (s : xstate) (l : xlabel) : bool :=
+    only thing it can do is go on (the machine would also let it read through the granted handle); a grant handed out
+    by make_mut is a [&mut T]: it cannot be turned into the value *)
+Definition granted_by_cow (cow : list nat) (s : xstate) (t : nat) : bool :=
+  let x := xget s t in
+  match x_pc x, x_mode x, x_ret x with [], XGranted, RGone => is_cow cow t | _, _, _ => false end.
+
+Definition allowed (cow : list nat) (s : xstate) (l : xlabel) : bool :=
   match l with
-  | XMoveOut _ => true
-  | _ => negb (in_uoc_grant (xget s (label_thread l)))
+  | XMoveOut t => negb (granted_by_cow cow s t)
+  | _ => negb (in_uoc_grant cow s (label_thread l))
   end.
 
 (** a step whose message index is 1000 or more reads the latest message (the generator cannot know how many there are) *)
@@ -131,29 +144,41 @@ Definition encode_label (l : xlabel) : list N :=
   | XMoveOut t => [4; n t; 0] | XSend t u => [5; n t; n u] | XStartDrop t => [6; n t; 0] | XStartUniq t => [7; n t; 0]
   | XStartUoc t => [8; n t; 0] | XStep t i => [9; n t; n i]
   end%N.
+Definition encode_raw (raw : list N) (l : xlabel) : list N :=
+  if is_cow_raw raw then 10%N :: tl (encode_label l) else encode_label l.
 
-Definition try_step (P : progs) (s : xstate) (l : xlabel) : option xstate :=
-  if allowed s l then xstep P s l else None.
+Definition try_step (P : progs) (cow : list nat) (s : xstate) (l : xlabel) : option xstate :=
+  if allowed cow s l then xstep P s l else None.
+
+(** which threads' current call is a make_mut, after label [l] (given as [raw]) was accepted *)
+Definition cow_after (cow : list nat) (raw : list N) (l : xlabel) : list nat :=
+  match l with
+  | XStartDrop t | XStartUniq t | XStartUoc t =>
+    let rest := filter (fun u => negb (Nat.eqb u t)) cow in
+    if is_cow_raw raw then t :: rest else rest
+  | _ => cow
+  end.
 
 (** [fuel] bounds the number of ACCEPTED labels: views are lists that grow with every join *)
-Fixpoint run_labels (P : progs) (fuel : nat) (s : xstate) (ls : list (list N)) : xstate * list (list N) :=
+Fixpoint run_labels (P : progs) (fuel : nat) (cow : list nat) (s : xstate) (ls : list (list N)) : (xstate * list nat) * list (list N) :=
   match ls with
-  | [] => (s, [])
+  | [] => ((s, cow), [])
   | raw :: r =>
     match fuel with
-    | O => (s, [])
+    | O => ((s, cow), [])
     | S fuel' =>
       match label_of raw with
-      | None => run_labels P fuel s r
+      | None => run_labels P fuel cow s r
       | Some l0 =>
         let l := resolve s l0 in
-        match try_step P s l with
-        | None => run_labels P fuel s r
+        match try_step P cow s l with
+        | None => run_labels P fuel cow s r
         | Some s' =>
           let '(c, op, o, old) := step_class s l in
-          let fin := match l with XStep t _ => bN (finished s' t) | _ => 0%N end in
-          let '(s2, obs) := run_labels P fuel' s' r in
-          (s2, (encode_label l ++ [c; fin; op; o; old]) :: obs)
+          let cow' := cow_after cow raw l in
+          let fin := match l with XStep t _ => bN (finished cow' s' t) | _ => 0%N end in
+          let '(sc, obs) := run_labels P fuel' cow' s' r in
+          (sc, (encode_raw raw l ++ [c; fin; op; o; old]) :: obs)
         end
       end
     end
@@ -165,8 +190,8 @@ Definition run_sched (case : list (list N)) : list (list N) :=
   match case with
   | (199%N :: n :: _) :: (200%N :: d) :: (201%N :: u) :: (202%N :: c) :: labels =>
     let P := mkProgs (prog_of d) (prog_of u) (prog_of c) in
-    let '(s, obs) := run_labels P max_labels xinit labels in
-    obs ++ [[900%N; bN (xdestroyed s); bN (xfreed s); bN (xraced s); bN (leaked s)] ++ summary s (N.to_nat n) 0; [901%N; 0%N; 0%N; 0%N; 0%N]]
+    let '((s, cow), obs) := run_labels P max_labels [] xinit labels in
+    obs ++ [[900%N; bN (xdestroyed s); bN (xfreed s); bN (xraced s); bN (leaked s)] ++ summary cow s (N.to_nat n) 0; [901%N; 0%N; 0%N; 0%N; 0%N]]
   | _ => [[999%N]]
   end.
 
@@ -177,7 +202,7 @@ Proof. reflexivity. Qed.
 
 (** every label that [run_labels] accepts is a step of the machine: the final state is the one [xexec] reaches on the
     accepted labels, so the theorems of ConcXProofs about all schedules cover every schedule this stream can run *)
-Fixpoint accepted (P : progs) (fuel : nat) (s : xstate) (ls : list (list N)) : list xlabel :=
+Fixpoint accepted (P : progs) (fuel : nat) (cow : list nat) (s : xstate) (ls : list (list N)) : list xlabel :=
   match ls with
   | [] => []
   | raw :: r =>
@@ -185,19 +210,23 @@ Fixpoint accepted (P : progs) (fuel : nat) (s : xstate) (ls : list (list N)) : l
     | O => []
     | S fuel' =>
       match label_of raw with
-      | None => accepted P fuel s r
-      | Some l0 => match try_step P s (resolve s l0) with None => accepted P fuel s r | Some s' => resolve s l0 :: accepted P fuel' s' r end
+      | None => accepted P fuel cow s r
+      | Some l0 =>
+        match try_step P cow s (resolve s l0) with
+        | None => accepted P fuel cow s r
+        | Some s' => resolve s l0 :: accepted P fuel' (cow_after cow raw (resolve s l0)) s' r
+        end
       end
     end
   end.
 
-Lemma run_labels_is_xexec P : forall ls fuel s, xexec P s (accepted P fuel s ls) = Some (fst (run_labels P fuel s ls)).
+Lemma run_labels_is_xexec P : forall ls fuel cow s, xexec P s (accepted P fuel cow s ls) = Some (fst (fst (run_labels P fuel cow s ls))).
 Proof.
-  induction ls as [|raw r IH]; intros fuel s; cbn [accepted run_labels xexec fst]; [reflexivity|].
+  induction ls as [|raw r IH]; intros fuel cow s; cbn [accepted run_labels xexec fst]; [reflexivity|].
   destruct fuel as [|fuel']; [reflexivity|].
   destruct (label_of raw) as [l0|]; [|apply IH].
   remember (resolve s l0) as l eqn:Hl. clear Hl.
-  destruct (try_step P s l) as [s'|] eqn:E; [|apply IH].
-  cbn [xexec]. unfold try_step in E. destruct (allowed s l); [|discriminate]. rewrite E. specialize (IH fuel' s').
-  destruct (step_class s l) as [[[c op] o] old]. destruct (run_labels P fuel' s' r) as [s2 obs]. exact IH.
+  destruct (try_step P cow s l) as [s'|] eqn:E; [|apply IH].
+  cbn [xexec]. unfold try_step in E. destruct (allowed cow s l); [|discriminate]. rewrite E. specialize (IH fuel' (cow_after cow raw l) s').
+  destruct (step_class s l) as [[[c op] o] old]. destruct (run_labels P fuel' (cow_after cow raw l) s' r) as [[s2 cow2] obs]. exact IH.
 Qed.
